@@ -424,7 +424,7 @@ func runOnce(c Case) (*Result, error) {
 	if err != nil {
 		return nil, err
 	}
-	o, err := fplab.Run{Thriftrw: thriftrw, Fakeplugin: fake, Work: work, Dir: sb, Args: args, Plugins: plugins, Timeout: 60 * time.Second}.Do()
+	o, err := fplab.Run{Thriftrw: thriftrw, Fakeplugin: fake, Work: work, Dir: sb, Args: args, Plugins: plugins, Timeout: hostTimeout}.Do()
 	if err != nil {
 		return nil, err
 	}
@@ -445,17 +445,24 @@ func runOnce(c Case) (*Result, error) {
 	return r, nil
 }
 
+// hostTimeout is the wall-clock ceiling of one thriftrw run: 60 s, and 240 s for the retry that
+// decides whether a run that hit the ceiling counts as a hang (the machine may be busy).
+var hostTimeout = 60 * time.Second
+
 func checkCase(c Case) (*Result, error) {
 	r, err := runOnce(c)
 	if err != nil {
 		return nil, envError{err}
 	}
 	if r.Obs.TimedOut {
-		if r, err = runOnce(c); err != nil {
+		hostTimeout = 240 * time.Second
+		r, err = runOnce(c)
+		hostTimeout = 60 * time.Second
+		if err != nil {
 			return nil, envError{err}
 		}
 		if r.Obs.TimedOut {
-			return r, ev.Errf("host/hang", "thriftrw did not finish within 60 s (twice)")
+			return r, ev.Errf("host/hang", "thriftrw did not finish within 60 s, nor within 240 s when run again")
 		}
 	}
 	return r, judge(c, r)
